@@ -542,6 +542,8 @@ class World:
 # generation
 
 HOSTS = ('node1.sim', 'node2.sim')
+DAY = 86400
+LONG_EXPIRIES = (86399, 86400, 86401, 90000, 172800, 200000)
 EPS = (-1.0, -0.001, -0.00005, 0.0, 0.00002, 0.0005, 0.001, 1.0)
 
 
@@ -615,6 +617,10 @@ class Generator:
         fin_ages = [exp_f * 10, exp_f * 3, exp_f + 30.0, exp_f + 0.5,
                     exp_f + 0.002, exp_f - 0.002, exp_f - 0.5, exp_f / 2.0,
                     0.3, 0.0]
+        if exp_f >= DAY:
+            # ages that differ from the expiry by whole days and hours
+            fin_ages += [exp_f % DAY + 1.0, exp_f % DAY + 120.0,
+                         exp_f - 3600.0, exp_f - 60.0]
         old_ages = [exp_f * 10, exp_f * 3, exp_f + 30.0, exp_f + 0.5,
                     exp_f + 0.002]
         base_ages = [exp_t * 10, exp_t * 3, exp_t + 5.0, exp_t + 0.8,
@@ -723,6 +729,19 @@ class Generator:
                 yield {'op': 'event', 'inst': inst, 'host': host,
                        'when': _stamp(now - exp_t + delta), 'type': etype,
                        'data': data}
+            if exp_t >= DAY:
+                # a long expiry: events of unscheduled instances younger
+                # than it by hours and by whole days, enough for a batch
+                gone = [i for i in insts if i[2] in (
+                    'finished', 'refinished', 'deleted')] or insts
+                ages = [exp_t % DAY + 1.0, exp_t % DAY + 60.0, exp_t / 2.0,
+                        exp_t - 3600.0, exp_t - 60.0, exp_t - 1.0]
+                for n in range(par['trace_batch'] + rng.randint(1, 4)):
+                    inst, host, _role = rng.choice(gone)
+                    yield {'op': 'event', 'inst': inst, 'host': host,
+                           'when': _stamp(now - rng.choice(ages) - n * 0.01),
+                           'type': 'service_running',
+                           'data': 'u%04d.web' % (2000 + n)}
         yield dict(par, op='archive')
 
     def history(self, world):
@@ -809,6 +828,11 @@ def make_config(prop, tier, rng):
         cfg['pre_rounds'] = 0 if heavy else min(cfg['pre_rounds'], 1)
         if heavy:
             cfg['n_inst'] = min(cfg['n_inst'], 4)
+    # expiries around and above one day, trace and finished independently
+    if rng.random() < 1.0 / 8:
+        cfg['archive']['expiry_t'] = rng.choice(LONG_EXPIRIES)
+    if rng.random() < 1.0 / 8:
+        cfg['archive']['expiry_f'] = rng.choice(LONG_EXPIRIES)
     return cfg
 
 
@@ -853,7 +877,11 @@ class TraceSim(enginemod.Engine):
             'shards with event timestamps far older, just older, just '
             'younger than the expiry (down to 20 us) and brand new, finished '
             'records whose mtimes straddle the expiry by 2 ms, server events;'
-            ' batch sizes 1-7, max history 1-4; heavy tail decided by the '
+            ' batch sizes 1-7, max history 1-4; expiries 30 s - 1 h, and in 1 '
+            'run in 8 each (trace, finished independently) 86399, 86400, '
+            '86401, 90000, 172800 or 200000 s with records of unscheduled '
+            'instances aged N mod 1 day + 1 s ... N - 1 s in numbers filling '
+            'a batch; heavy tail decided by the '
             'seed: 1 run in 14 with a batch size in 10001..20000 and 1 in 12 '
             'at 100, 1000, 1024, 4096, 5000, 8192 or 9999, with enough '
             'archivable records of one kind (one `bulk` op writing them '
